@@ -122,6 +122,7 @@ pub fn harnesses(prop: &str, tier: &str) -> Vec<Harness> {
         "C10" => c10(quick),
         "C11" => c11(quick),
         "C12" => c12(quick),
+        "C15" => c15(quick),
         "C18" => c18(quick),
         _ => Vec::new(),
     }
@@ -429,6 +430,23 @@ fn c18(quick: bool) -> Vec<Harness> {
     }]
 }
 
+fn c15(quick: bool) -> Vec<Harness> {
+    use crate::c15::{C15World, cases};
+    let cs = cases(quick);
+    let n = cs.len();
+    let cs = std::rc::Rc::new(cs);
+    let (c1, c2) = (cs.clone(), cs.clone());
+    let depth = if quick { 3 } else { 4 };
+    let b = Bounds { depth: depth + 1, dev: 0, d_all: 2, merge: true, shard: (0, 1), cap_s: 0 };
+    vec![Harness {
+        name: "edit-sequences".to_string(),
+        describe: json!({"engine": "seqx", "world": "C15World", "cases": n, "edit_sequence_length": depth, "edits": "truncate, clear, remove with every range form and bounds 0..cap+1, usize::MAX-1, usize::MAX, set_len, extend_from_slice 0..cap+1, spare_capacity_mut+set_len, a second kernel read, as_mut_slice writes; then release", "state_merging": "by (case, contents)"}),
+        bounds: b,
+        run: Box::new(move |b| seqx::explore(&|| C15World::new(c1.clone()), "C15", b)),
+        replay: Box::new(move |choices| seqx::exec(&|| C15World::new(c2.clone()), "C15", choices)),
+    }]
+}
+
 fn c11(quick: bool) -> Vec<Harness> {
     use crate::thworld::{C11Cfg, RingMode, c11};
     let mut v = Vec::new();
@@ -567,7 +585,7 @@ fn c01(quick: bool) -> Vec<Harness> {
     v
 }
 
-pub const ALL: &[&str] = &["C01", "C02", "C03", "C04", "C05", "C06", "C07", "C08", "C09", "C10", "C11", "C12", "C18"];
+pub const ALL: &[&str] = &["C01", "C02", "C03", "C04", "C05", "C06", "C07", "C08", "C09", "C10", "C11", "C12", "C15", "C18"];
 
 pub fn assumptions(prop: &str) -> Vec<String> {
     let mut v = vec![
